@@ -32,7 +32,7 @@ def hx(s):
 
 def gen_ty(rng, depth, scope):
     """scope: dict name -> kind ('ty' | 'rr' | 'en') of the innermost binder of that name."""
-    if depth <= 0 or rng.chance(1, 6):
+    if depth <= 0 or rng.chance(1, 9):
         tyvars = [x for x, k in scope.items() if k == "ty"]
         if tyvars and rng.chance(1, 2):
             return "(tv %s)" % hx(rng.choice(tyvars))
@@ -54,7 +54,10 @@ def gen_ty(rng, depth, scope):
             tail = "closed"
         return "(rec %s%s)" % (tail, "".join(" (%s %s)" % (hx(k), gen_ty(rng, depth - 1, scope)) for k in ks))
     if c < 13:
-        return "(dict %s %s)" % (rng.choice("tc"), gen_ty(rng, depth - 1, scope))
+        fl = rng.choice("tc")
+        # `{_ | C}`: C is parsed in contract position, where the type variables of the enclosing
+        # foralls are not in scope (they would be free term variables)
+        return "(dict %s %s)" % (fl, gen_ty(rng, depth - 1, scope if fl == "t" else {}))
     if c < 15:
         n = rng.below(3)
         tags = rng.shuffle(TAGS)[:n]
@@ -72,6 +75,31 @@ def gen_ty(rng, depth, scope):
         sc[x] = kind
         return "(all %s %s %s)" % (hx(x), {"ty": "ty", "rr": "(rr)", "en": "en"}[kind], gen_ty(rng, depth - 1, sc))
     return "(op 0)"
+
+
+def gen_rowpoly(rng):
+    """forall r. {..; r} -> ... -> {..; r}: the shapes where excluded fields matter, optionally under
+    more arrows (other polarities) and an inner forall reusing the name."""
+    r = rng.choice(RRV)
+
+    def rec(scope_has_r=True):
+        ks = rng.shuffle(FIELDS)[:rng.below(4)]
+        tail = "(var %s)" % hx(r) if rng.chance(4, 5) else rng.choice(["dyn", "closed"])
+        return "(rec %s%s)" % (tail, "".join(" (%s %s)" % (hx(k), rng.choice(["Num", "Str", "Dyn", "(fun Num Num)", "(arr Num)"])) for k in ks))
+
+    def chain(n):
+        if n == 0:
+            return rec()
+        a = rec() if rng.chance(3, 4) else "(fun %s %s)" % (rec(), rec())
+        return "(fun %s %s)" % (a, chain(n - 1))
+    body = chain(rng.range(1, 3))
+    if rng.chance(1, 4):
+        inner = "(all %s (rr) %s)" % (hx(r), chain(1))
+        body = "(fun %s %s)" % (inner, body)
+    t = "(all %s (rr) %s)" % (hx(r), body)
+    if rng.chance(1, 4):
+        t = "(fun %s Num)" % t          # the whole thing in negative position
+    return t
 
 
 def norm_kinds(s):
@@ -333,7 +361,10 @@ def run(ck):
     types = []
     seen = set()
     while len(types) < nt:
-        t = gen_ty(rng.fork(), rng.choice([1, 2, 3, 3, 4, 4, 5, 5]), {})
+        if rng.chance(1, 5):
+            t = gen_rowpoly(rng.fork())
+        else:
+            t = gen_ty(rng.fork(), rng.choice([2, 3, 3, 4, 4, 5, 5, 5]), {})
         if t in seen and rng.chance(9, 10):
             continue
         seen.add(t)
@@ -346,7 +377,7 @@ def run(ck):
     run_behaviour(ck, cases, exe_model, "generated")
     ck.coverage["boundary_programs"] = nb
     ck.coverage["rule"] = ("syntactic case = a closed type generated from all constructors (ground, Dyn, Array, arrows at every polarity, record rows with closed/Dyn/variable tails, both dictionaries, enum rows with optional tail variable, forall of the three kinds incl. same-name and cross-kind shadowing, an opaque contract), depth <= 5, printed to source, parsed by the real parser; compared: skeleton of Type::contract and of Type::contract_static vs model. "
-                           "behavioural case = `let f : A -> B = fun x => std.deep_seq x (res | B) in f arg`, the same with `|`, `let f : (A -> B) -> C = fun cb => std.deep_seq (cb (a0 | A)) (c0 | C) in f <callback | data>`, `let x : T = (v | T) in x` with first-order A, B, C generated as in C03 and arg/res/a0/c0 members or members mutated at one position (subvalue kind, field dropped/added/renamed, tag/arity); each run in default and static-full mode; plus the hand-written polymorphic corpus; non-trivial = has an arrow or a forall")
+                           "behavioural case = `let f : A -> B = fun x => std.deep_seq (x | Dyn) (res | B) in f arg`, the same with `|`, `let f : (A -> B) -> C = fun cb => std.deep_seq (cb (a0 | A)) (c0 | C) in f <callback | data>`, `let x : T = (v | T) in x` with first-order A, B, C generated as in C03 and arg/res/a0/c0 members or members mutated at one position (subvalue kind, field dropped/added/renamed, tag/arity); each run in default and static-full mode; plus the hand-written polymorphic corpus; non-trivial = has an arrow or a forall")
     ck.coverage["partial"] = "simplify_equiv is proved for first-order data and first-order arrows only; higher-order/polymorphic: simplify_keeps_negative + direct oracle (default vs static-full)"
     ck.trusted += ["extraction: ExtrOcamlBasic + ExtrOcamlNativeString", "hook H2 (full contracts for static annotations) via nkeval flag static-full",
                    "harness bin c02 (skeleton printer over the generated NickelValue)", "harness bin nkeval", "generators in checks/c02.py and checks/c03.py"]
